@@ -152,6 +152,32 @@ def run(ctx):
               "axis names / binnings are not selected by membership over the parent's own order (listing the axes in another "
               "order would then swap names and bins relative to the summed contents)", rdm.where)
 
+    # sibling agreement of the 1-D / 2-D / N-D branches: each hands the summed contents AND their summed squared errors,
+    # the kept binnings, the kept names and the name to the constructor
+    rp = [q for q in rdm.params() if q != "self"]
+    nret = 0
+    for n in ast.walk(rdm.node):
+        if not (isinstance(n, ast.Return) and isinstance(n.value, ast.Call)):
+            continue
+        nret += 1
+        call = n.value
+        kws = {k.arg: U(k.value) for k in call.keywords if k.arg}
+        probs = []
+        if kws.get("frequencies") != rp[1]:
+            probs.append(f"frequencies={kws.get('frequencies')}")
+        if kws.get("errors2") != rp[2]:
+            probs.append(f"errors2={kws.get('errors2')} (without it the constructor takes errors2 = |frequencies|)")
+        if not (kws.get("binning") == "bins[0]" or kws.get("binnings") == "bins"):
+            probs.append("kept binnings not passed")
+        if not (kws.get("axis_name") == "axis_names[0]" or kws.get("axis_names") == "axis_names"):
+            probs.append("kept axis names not passed")
+        if kws.get("name") != "name":
+            probs.append("name not passed")
+        dim = kws.get("dimension", "1" if "binning" in kws else "2")
+        ctx.check(not probs, "C09.a", f"_reduce_dimension:branch:{dim}", "contents, errors2, binnings, axis names and name handed to the constructor",
+                  f"`{U(call.func)}(...)` for {dim} kept axes: " + "; ".join(probs), rdm.where)
+    ctx.check(nret >= 3, "C09.a", "_reduce_dimension:branches", f"{nret} constructing branches", f"only {nret} constructing branches found", rdm.where)
+
     ctx.rule("C09.b", "empty / duplicate axis lists, unknown names, out-of-range indices and other types are refused", 5)
     conds = set()
     for p in function_paths(gpa.node):
